@@ -9,7 +9,9 @@ use std::collections::{BTreeMap, HashSet};
 use std::fs::File;
 use std::io::{BufWriter, Write};
 
+mod c01;
 mod c02;
+mod corpus;
 mod c03;
 mod c04;
 mod c05;
@@ -204,6 +206,8 @@ pub fn eval(out: &mut Out, req: &str) -> String {
     let args: Vec<&str> = it.collect();
     let r = if op.starts_with("leb.") {
         c09::eval(out, op, &args)
+    } else if op.starts_with("nat.") {
+        c01::eval(out, op, &args)
     } else if op.starts_with("de.") {
         c07::eval(out, op, &args)
     } else if op.starts_with("sound.") {
@@ -269,6 +273,8 @@ fn main() {
     }
     match prop {
         "replay" => {}
+        "C01" => c01::run_c01(&mut ctx),
+        "C08" => c01::run_c08(&mut ctx),
         "C02" => c02::run(&mut ctx),
         "C03" => c03::run(&mut ctx),
         "C04" => c04::run(&mut ctx),
